@@ -285,6 +285,9 @@ theorem inv_step {I : Int → Int} {T : Int → Int → Option Int} {st : State}
       · intro q hq hs
         simp only [hsum]
         exact hi.post q hq hs
+    | chown a b =>
+      obtain ⟨_, _, rfl⟩ := doChown_ok h
+      exact ⟨hi.iro_nonneg, hi.none_, hi.all, hi.pre, hi.post⟩
 
 theorem inv_run {I : Int → Int} {T : Int → Int → Option Int} (ops : List Op) :
     ∀ st, Inv st → Inv (run I T st ops) := by
@@ -319,6 +322,7 @@ theorem step_cfg (I : Int → Int) (T : Int → Int → Option Int) (st : State)
     | claim a => obtain ⟨p, _, _, _, _, rfl⟩ := doClaim_ok h; rfl
     | claimv a => obtain ⟨p, amt, _, _, _, _, _, _, rfl⟩ := doClaimVested_ok h; rfl
     | xfer a b amt => obtain ⟨_, _, rfl⟩ := doXfer_ok h; rfl
+    | chown a b => obtain ⟨_, _, rfl⟩ := doChown_ok h; rfl
 
 theorem run_cfg (I : Int → Int) (T : Int → Int → Option Int) (ops : List Op) :
     ∀ st, (run I T st ops).cfg = st.cfg := by
